@@ -127,6 +127,9 @@ Definition slab_set (k : nat) (t : trec) (c : cmdst) : cmdst :=
 Definition slab_remove (k : nat) (c : cmdst) : cmdst :=
   set_slab (updd (Vac 0) k (fun _ => Vac (c_next c)) (c_ent c)) k (pred (c_len c)) c.
 Definition slab_clear (c : cmdst) := set_slab [] 0 0 c.
+(* one iteration of spawn_new_tasks: tasks.insert(task); ready_sender.send(id) *)
+Definition spawn_one (t : trec) (cm : cmdst) : cmdst :=
+  let '(k, cm') := slab_insert t cm in set_ready (c_ready cm' ++ [k]) cm'.
 
 (* ---------- CommandWaker::wake_by_ref / TaskWaker::wake_by_ref ---------- *)
 Fixpoint wake (fuel : nat) (w : waker) (H : heap) : heap :=
@@ -224,33 +227,46 @@ Definition map_ev (k : nat) (e : event) := if Nat.eqb k 0 then e else mkEv (v_ta
 Inductive tstate := Missing | Suspended | Completed | Cancelled.
 Inductive pn := PNPending | PNDone | PNEffect (e : effect) | PNEvent (e : event).
 
-Fixpoint poll (fuel : nat) (c : nat) (w : waker) (fs : fstate) (H : heap) {struct fuel} : option (pres * heap) :=
-  match fuel with 0 => None | S f =>
+(* The five mutually recursive functions are written in open-recursion style: a body takes the
+   record of the functions at the next lower fuel level, and [funs] ties the knot on fuel.  Every
+   recursive call in the code decreases fuel by exactly one, so this is the same function as the
+   mutual Fixpoint would be, with unfolding lemmas that hold by reflexivity. *)
+Record rtfuns := mkFuns {
+  rpoll : nat -> waker -> fstate -> heap -> option (pres * heap);
+  rpoll_next : nat -> waker -> heap -> option (pn * heap);
+  rsettle : nat -> heap -> option heap;
+  rdrain : nat -> heap -> option heap;
+  rrun_task : nat -> nat -> heap -> option (tstate * heap)
+}.
+Definition funs0 : rtfuns :=
+  mkFuns (fun _ _ _ _ => None) (fun _ _ _ => None) (fun _ _ => None) (fun _ _ => None) (fun _ _ _ => None).
+
+Definition poll_body (F : rtfuns) (c : nat) (w : waker) (fs : fstate) (H : heap) : option (pres * heap) :=
   let en := f_env fs in let st := f_stack fs in
-  let go l := poll f c w (mkF en l st) in
+  let go l := rpoll F c w (mkF en l st) in
   match f_leaf fs with
   | LRun t =>
     match t with
     | TRet => match st with
               | [] => Some (Rdy, H)
-              | _ :: _ => poll f c w (mkF en LStr st) H
+              | _ :: _ => rpoll F c w (mkF en LStr st) H
               end
-    | TEmit tg e k => poll f c w (mkF en (LRun k) st) (push_ev c (mkEv tg (eval en e) []) H)
-    | TNotify tg e k => poll f c w (mkF en (LRun k) st) (push_eff c (mkEff tg (eval en e) [] RNever) H)
-    | TReq tg e x k => let (ch, H1) := new_chan H in poll f c w (mkF en (LReq false false tg (eval en e) ch x k) st) H1
+    | TEmit tg e k => rpoll F c w (mkF en (LRun k) st) (push_ev c (mkEv tg (eval en e) []) H)
+    | TNotify tg e k => rpoll F c w (mkF en (LRun k) st) (push_eff c (mkEff tg (eval en e) [] RNever) H)
+    | TReq tg e x k => let (ch, H1) := new_chan H in rpoll F c w (mkF en (LReq false false tg (eval en e) ch x k) st) H1
     | TForEach tg e x body k =>
         let (ch, H1) := new_chan H in
-        poll f c w (mkF en LStr (mkFr false tg (eval en e) ch x body k :: st)) H1
+        rpoll F c w (mkF en LStr (mkFr false tg (eval en e) ch x body k :: st)) H1
     | TSpawn child h k =>
         let (u, H1) := new_tflag H in
-        poll f c w (mkF (setv h u en) (LRun k) st)
+        rpoll F c w (mkF (setv h u en) (LRun k) st)
              (ucmd c (fun cm => set_spawnq (c_spawnq cm ++ [mkT u (fs_of en child)]) cm) H1)
-    | TJoin h k => poll f c w (mkF en (LJoin (getd 0 h en) k) st) H
-    | TAbortT h k => poll f c w (mkF en (LRun k) st)
+    | TJoin h k => rpoll F c w (mkF en (LJoin (getd 0 h en) k) st) H
+    | TAbortT h k => rpoll F c w (mkF en (LRun k) st)
                        (utf (getd 0 h en) (fun tf => mkTF (tf_fin tf) true (tf_alive tf) (tf_joinw tf)) H)
-    | TYield n k => poll f c w (mkF en (LYield n k) st) H
+    | TYield n k => rpoll F c w (mkF en (LYield n k) st) H
     | THost names meff mev m ex k =>
-        let (cid, H1) := new_cmd names (Some (c_epoch (gcmd c H))) en m ex H in poll f c w (mkF en (LHost cid meff mev k) st) H1
+        let (cid, H1) := new_cmd names (Some (c_epoch (gcmd c H))) en m ex H in rpoll F c w (mkF en (LHost cid meff mev k) st) H1
     end
   | LReq sent dead tg v ch x k =>
     if dead then Some (Pend fs, H) else
@@ -259,7 +275,7 @@ Fixpoint poll (fuel : nat) (c : nat) (w : waker) (fs : fstate) (H : heap) {struc
       let H1 := chan_reg ch w H in
       Some (Pend (mkF en (LReq true false tg v ch x k) st), push_eff c (mkEff tg v [] (ROnce ch)) H1)
     else match ch_buf (gch ch H) with
-      | m :: _ => poll f c w (mkF (setv x m en) (LRun k) st) (chan_drop_rx ch H)
+      | m :: _ => rpoll F c w (mkF (setv x m en) (LRun k) st) (chan_drop_rx ch H)
       | [] => if ch_tx (gch ch H) then Some (Pend fs, chan_reg ch w H)
               else Some (Pend (mkF en (LReq true true tg v ch x k) st), note B_ClosedPending (chan_drop_rx ch H))
       end
@@ -273,10 +289,10 @@ Fixpoint poll (fuel : nat) (c : nat) (w : waker) (fs : fstate) (H : heap) {struc
         Some (Pend (mkF en LStr (mkFr true (fr_tg fr) (fr_v fr) ch (fr_x fr) (fr_body fr) (fr_k fr) :: rest)),
               push_eff c (mkEff (fr_tg fr) (fr_v fr) [] (RMany ch)) H1)
       else match ch_buf (gch ch H) with
-        | m :: more => poll f c w (mkF (setv (fr_x fr) m en) (LRun (fr_body fr)) st)
+        | m :: more => rpoll F c w (mkF (setv (fr_x fr) m en) (LRun (fr_body fr)) st)
                          (uch ch (fun cc => mkChan more (ch_tx cc) (ch_rx cc) (ch_wk cc)) H)
         | [] => if ch_tx (gch ch H) then Some (Pend fs, chan_reg ch w H)
-                else poll f c w (mkF en (LRun (fr_k fr)) rest) (note B_StreamEnd (chan_drop_rx ch H))
+                else rpoll F c w (mkF en (LRun (fr_k fr)) rest) (note B_StreamEnd (chan_drop_rx ch H))
         end
     end
   | LJoin u k =>
@@ -291,21 +307,20 @@ Fixpoint poll (fuel : nat) (c : nat) (w : waker) (fs : fstate) (H : heap) {struc
     end
   | LHost cid meff mev k =>
     (* Forward: loop { poll_next: Some(item) => start_send; None => Ready; Pending => Pending } *)
-    match poll_next f cid w H with
+    match rpoll_next F cid w H with
     | None => None
     | Some (r, H1) =>
       match r with
       | PNPending => Some (Pend fs, H1)
       | PNDone => go (LRun k) (note B_HostDone (drop_cmd DF cid H1))
-      | PNEffect e => poll f c w fs (push_eff c (map_eff meff e) H1)
-      | PNEvent e => poll f c w fs (push_ev c (map_ev mev e) H1)
+      | PNEffect e => rpoll F c w fs (push_eff c (map_eff meff e) H1)
+      | PNEvent e => rpoll F c w fs (push_ev c (map_ev mev e) H1)
       end
     end
-  end end
-with poll_next (fuel : nat) (cid : nat) (w : waker) (H : heap) {struct fuel} : option (pn * heap) :=
-  match fuel with 0 => None | S f =>
+  end.
+Definition poll_next_body (F : rtfuns) (cid : nat) (w : waker) (H : heap) : option (pn * heap) :=
   let H0' := ucmd cid (set_atomic (Some w)) H in
-  match settle f cid H0' with None => None | Some H1 =>
+  match rsettle F cid H0' with None => None | Some H1 =>
   let cm := gcmd cid H1 in
   match c_evs cm with
   | e :: rest => Some (PNEvent e, ucmd cid (set_evs rest) H1)
@@ -314,9 +329,8 @@ with poll_next (fuel : nat) (cid : nat) (w : waker) (H : heap) {struct fuel} : o
     | e :: rest => Some (PNEffect e, ucmd cid (set_eff rest) H1)
     | [] => if Nat.eqb (c_len cm) 0 then Some (PNDone, H1) else Some (PNPending, H1)
     end
-  end end end
-with settle (fuel : nat) (cid : nat) (H : heap) {struct fuel} : option heap :=
-  match fuel with 0 => None | S f =>
+  end end.
+Definition settle_body (F : rtfuns) (cid : nat) (H : heap) : option heap :=
   if was_aborted cid H then
     (* self.tasks.clear(); return *)
     let c := gcmd cid H in
@@ -326,20 +340,17 @@ with settle (fuel : nat) (cid : nat) (H : heap) {struct fuel} : option heap :=
   else
   let c := gcmd cid H in
   (* spawn_new_tasks *)
-  let H1 := fold_left (fun Hh t =>
-      let '(k, cm') := slab_insert t (gcmd cid Hh) in
-      ucmd cid (fun _ => set_ready (c_ready cm' ++ [k]) cm') Hh) (c_spawnq c) (ucmd cid (set_spawnq []) H) in
+  let H1 := fold_left (fun Hh t => ucmd cid (spawn_one t) Hh) (c_spawnq c) (ucmd cid (set_spawnq []) H) in
   match c_ready (gcmd cid H1) with
   | [] => Some H1
-  | _ :: _ => match drain f cid H1 with None => None | Some H2 => settle f cid H2 end
-  end end
-with drain (fuel : nat) (cid : nat) (H : heap) {struct fuel} : option heap :=
-  match fuel with 0 => None | S f =>
+  | _ :: _ => match rdrain F cid H1 with None => None | Some H2 => rsettle F cid H2 end
+  end.
+Definition drain_body (F : rtfuns) (cid : nat) (H : heap) : option heap :=
   match c_ready (gcmd cid H) with
   | [] => Some H
   | s :: rest =>
     let H1 := ucmd cid (set_ready rest) H in
-    match run_task f cid s H1 with None => None | Some (st, H2) =>
+    match rrun_task F cid s H1 with None => None | Some (st, H2) =>
     let H3 := match st with
       | Completed | Cancelled =>
         match slab_get s (gcmd cid H2) with
@@ -352,17 +363,16 @@ with drain (fuel : nat) (cid : nat) (H : heap) {struct fuel} : option heap :=
           kill_flag (t_uid t) (drop_fs DF (t_fs t) H6)
         | None => H2 end
       | Missing | Suspended => H2 end in
-    drain f cid H3 end
-  end end
-with run_task (fuel : nat) (cid slot : nat) (H : heap) {struct fuel} : option (tstate * heap) :=
-  match fuel with 0 => None | S f =>
+    rdrain F cid H3 end
+  end.
+Definition run_task_body (F : rtfuns) (cid slot : nat) (H : heap) : option (tstate * heap) :=
   match slab_get slot (gcmd cid H) with
   | None => Some (Missing, note B_Missing H)
   | Some t =>
     if tf_abort (gtf (t_uid t) H) then Some (Completed, note B_AbortedBeforePoll H) else
     let g := length (woken H) in
     let H1 := mkH (chans H) (tfl H) (cmds H) (woken H ++ [false]) (xready H) (aborted H) (log H) in
-    match poll f cid (WCmd cid slot g) (t_fs t) H1 with
+    match rpoll F cid (WCmd cid slot g) (t_fs t) H1 with
     | None => None
     | Some (Rdy, H2) => Some (Completed, ucmd cid (slab_set slot (mkT (t_uid t) (mkF [] (LRun TRet) []))) H2)
     | Some (Pend fs', H2) =>
@@ -370,4 +380,14 @@ with run_task (fuel : nat) (cid slot : nat) (H : heap) {struct fuel} : option (t
       if getd false g (woken H3) || holds g H3 then Some (Suspended, H3)
       else Some (Cancelled, note B_Evict H3)
     end
-  end end.
+  end.
+
+Definition step_funs (F : rtfuns) : rtfuns :=
+  mkFuns (poll_body F) (poll_next_body F) (settle_body F) (drain_body F) (run_task_body F).
+Fixpoint funs (fuel : nat) : rtfuns :=
+  match fuel with 0 => funs0 | S f => step_funs (funs f) end.
+Definition poll (fuel : nat) := rpoll (funs fuel).
+Definition poll_next (fuel : nat) := rpoll_next (funs fuel).
+Definition settle (fuel : nat) := rsettle (funs fuel).
+Definition drain (fuel : nat) := rdrain (funs fuel).
+Definition run_task (fuel : nat) := rrun_task (funs fuel).
